@@ -99,6 +99,18 @@ def gen(prop, tier, seed):
         for h in range(nh):
             parts.append("D %d" % h)
         cases.append(Case("seq-%d" % i, " ; ".join(parts), {"handles": handles, "nh": nh}, "seq/%d" % i))
+    # the child side of a fork-mode start: the handle is "started" there, only destroy is allowed;
+    # every other call is misuse that must be refused without acting
+    for j in range(n // 25):
+        r = rng_for(seed, "seqfork", j)
+        calls = "".join(r.choice("SFWPTKROCLZ") for _ in range(r.randint(1, 10)))
+        if j < 11:
+            calls = "SFWPTKROCLZ"[j]
+        o = {"fork": 1, "stop": KILL_POLICY, "inchild": calls, "nb": r.randrange(2)}
+        if r.random() < 0.3:
+            o["err"] = R_PIPE
+        script = "N 0 ; %s ; E 0 25 X %d ; W 0 -1 ; D 0" % (start_tokens(0, o), r.randrange(256))
+        cases.append(Case("seqfork-%d" % j, script, {"handles": {0: o}, "nh": 1, "forkchild": calls}, "seqfork/%s" % calls))
     return cases
 
 
@@ -117,6 +129,29 @@ def judge(prop, case, log):
     if log.fin is None:
         V("no-fin", "no final record")
         return vs, obs, False
+    if case.meta.get("forkchild"):
+        calls = case.meta["forkchild"]
+        fin = log.fin
+        res = fin.get("inchild", [])
+        obs["fork_child_calls"] = len(res)
+        if any("hang" in o for o in log.ops):
+            obs["hangs"] = 1
+            return vs, obs, False
+        if len(res) != len(calls):
+            V("fork-child-call-died", "the child side made %d of %d calls (%s) before it stopped" % (len(res), len(calls), calls))
+        for c, v in zip(calls, res):
+            obs["state_op_pairs"].add("CHILD/" + c)
+            if c in "SF" and v != EINVAL:
+                V("fork-child-start-accepted" if v >= 0 else "fork-child-start-wrong-error:%d" % v,
+                  "start on the child side of a fork (an already started handle) returned %d" % v)
+            elif c in "WTKZ" and v >= 0:
+                V("fork-child-call-acted:" + c, "call %s on the child side of a fork returned %d (nothing to wait for or signal there)" % (c, v))
+        if fin.get("badtarget"):
+            V("fork-child-call-signals", "a call on the child side of a fork issued kill/waitpid (%d)" % fin["badtarget"])
+        if fin.get("inchild_done") != 1:
+            V("fork-child-destroy", "destroy on the child side did not return null after calls %s" % calls)
+        obs["ops_checked"] = len(res)
+        return vs, obs, True
     nh = case.meta["nh"]
     # handle options are only known for the first valid start per slot; reconstruct from the script instead
     script_ops = [p.strip() for p in case.script.split(";")]
